@@ -1,5 +1,6 @@
 """C13 — deterministic compilation across processes (hash-order / entropy taint)."""
 CANON = True
+STRICT = {"DET-SET", "DET-ENTROPY", "DET-HYSET"}
 
 import ast
 
